@@ -146,3 +146,83 @@ Section T09.
 End T09.
 
 (* at the executable carrier of C09: the first stage and the two callees are Model/Survival.gde3_survival's *)
+
+(* ---- C09 (single-objective clause) stated about the GENERATED GeneticAlgorithm.iterate and
+   EvolutionaryStrategy.iterate: whatever selection, variation and evaluation do (opaque callees, only required to
+   hand back solutions satisfying P), if the definition produced from the source text finishes a generation then
+   the old fittest does not beat the new fittest, which belongs to the new population (GA); no parent beats the head
+   of the new population (ES).  [lt] = compare(a, b) < 0 under functools.cmp_to_key, a strict weak order on P. ---- *)
+From PV Require Import Proofs.SurvivalProofs Props.C09.
+Open Scope Z_scope.
+
+Section C09_generated.
+  Variables T W : Type.
+  Variable cmp : T -> T -> Z.
+  Variable P : T -> Prop.
+  Notation lt := (cmp_key_lt cmp).
+  Hypothesis lt_irrefl : forall x, P x -> lt x x = false.
+  Hypothesis lt_trans : forall x y z, P x -> P y -> P z -> lt x y = true -> lt y z = true -> lt x z = true.
+  Hypothesis lt_cotrans : forall x y z, P x -> P y -> P z -> lt x y = true -> lt x z = true \/ lt z y = true.
+  Variable select : W -> Z -> list T -> W * list T.
+  Variable evolve : W -> list T -> W * list T.
+  Variable evaluate_all : W -> list T -> W * list T.
+  Hypothesis evaluated_ok : forall w l, Forall P (snd (evaluate_all w l)).
+  Variables arity offspring_size : Z.
+  Local Notation py_sorted := (fun (l : list T) (k : T -> T -> bool) => ssort k l).
+
+  Theorem tie_c09_generated_ga_best_monotone : forall (fuel : nat) (world : W) (n : nat) (population : list T) (fittest : T) w' pop' f',
+    P fittest ->
+    Core.GeneticAlgorithm_iterate T (T -> T -> bool) (T -> T -> Z) W fuel world select evolve arity evaluate_all
+                                  offspring_size (Z.of_nat n) py_sorted cmp_key_lt cmp population fittest
+      = Some (w', pop', f') ->
+    lt fittest f' = false /\ (forall y, In y pop' -> lt y f' = false) /\ In f' pop' /\ (length pop' <= n)%nat.
+  Proof.
+    intros fuel world n population fittest w' pop' f' Pf H.
+    rewrite (tie_ga_iterate T W cmp select evolve evaluate_all arity offspring_size) in H.
+    destruct (ga_offspring T W select evolve arity offspring_size (W * list T * T) fuel world population) as [[offspring w]|r|] eqn:EL;
+      [| |discriminate].
+    - pose proof (evaluated_ok w offspring) as He.
+      destruct (evaluate_all w offspring) as [w1 evaluated]. cbn [snd] in He.
+      destruct (ga_iterate cmp evaluated fittest n) as [[p1 f1]|] eqn:E; [|discriminate].
+      injection H as _ Hp Hf. subst p1 f1.
+      assert (HP : Forall P (evaluated ++ [fittest])) by (apply Forall_app; split; [exact He|constructor; [exact Pf|constructor]]).
+      destruct (c09_ga_best_monotone T cmp P lt_irrefl lt_trans lt_cotrans evaluated fittest n pop' f' HP E)
+        as [A [_ [B [C [_ D]]]]].
+      repeat split; assumption.
+    - exfalso. clear H.
+      unfold ga_offspring in EL. revert EL.
+      generalize (@nil T, world). induction fuel as [|f IH]; intros [o w]; cbn [while_fuel].
+      + destruct (py_len o <? offspring_size); discriminate.
+      + destruct (py_len o <? offspring_size); [|discriminate].
+        destruct (select w arity population) as [w1 parents]. destruct (evolve w1 parents) as [w2 children]. apply IH.
+  Qed.
+
+  Theorem tie_c09_generated_es_best_monotone : forall (world : W) (n : nat) (population : list T) w' h r,
+    Forall P population ->
+    Core.EvolutionaryStrategy_iterate T (T -> T -> bool) (T -> T -> Z) W world evolve evaluate_all
+                                      offspring_size (Z.of_nat n) py_sorted cmp_key_lt cmp population
+      = Some (w', h :: r) ->
+    (forall p, In p population -> lt p h = false) /\ (forall y, In y (h :: r) -> lt y h = false).
+  Proof.
+    intros world n population w' h r Pp H.
+    rewrite (tie_es_iterate T W cmp evolve evaluate_all offspring_size) in H.
+    destruct (es_offspring T W evolve offspring_size (W * list T) world population) as [[offspring w]|r0|] eqn:EL;
+      [| |discriminate].
+    - pose proof (evaluated_ok w offspring) as He.
+      destruct (evaluate_all w offspring) as [w1 evaluated]. cbn [snd] in He.
+      injection H as _ Hp.
+      assert (HP : Forall P (evaluated ++ population)) by (apply Forall_app; split; assumption).
+      destruct (c09_es_best_monotone T cmp P lt_irrefl lt_trans lt_cotrans evaluated population n h r HP Hp)
+        as [A [_ [B _]]].
+      split; assumption.
+    - exfalso. clear H.
+      unfold es_offspring, for_range in EL. revert EL.
+      generalize (@nil T, world). induction (zrange offspring_size) as [|i l IH]; intros [o w]; cbn [for_list]; [discriminate|].
+      destruct (py_mod i (py_len population)) as [k|]; cbn [get]; [|discriminate].
+      destruct (py_index population k) as [parent|]; cbn [get]; [|discriminate].
+      destruct (evolve w [parent]) as [w2 children]. apply IH.
+  Qed.
+End C09_generated.
+
+Print Assumptions tie_c09_generated_ga_best_monotone.
+Print Assumptions tie_c09_generated_es_best_monotone.
